@@ -18,10 +18,17 @@ from vlib import sqlo
 
 PROP = 'C11'
 META = {
-    'extractors': ['query'],
+    'extractors': ['query', 'pyquery'],
     'technique': ('Lean 4 proof (plan-level model of order munging / reversed / keyword clauses / accumulate plans / getOne, '
                   'reference SQL evaluator with a verified insertion sort) + extracted operator / function-name / branch tables '
-                  '+ differential correspondence on text and results + independent Python oracle'),
+                  '+ differential correspondence on text and results + independent Python oracle; TRANSLATOR tie: vlib/extractors/pyquery.py '
+                  'translates 38 functions of sresults.py / sqlbuilder.py / dbconnection.py / main.py / index.py from the AST into the deep embedding '
+                  'Model/PyQuery.lean on every run, and Lemmas/QueryX*.lean prove the translated programs equal to the plan functions of the hand model '
+                  '(C11_translated_*: _mungeOrderBy, the munging of lists / tuples, __init__, _getConnection, clone, orderBy, reversed, distinct, newClause, '
+                  'filter, AND, OR, getOne, __iter__, lazyIter, Iteration.next, accumulate, accumulateMany, accumulateOne, sum/min/max/avg, count, '
+                  'accumulateSelect and the Select clone chain, DESC.__sqlrepr__ (one level), _str_or_sqlrepr, selectBy) for all inputs; '
+                  'translated but not yet proved (still tied by extracted constants + text correspondence): _SO_columnClause, _SO_selectOneAlt, '
+                  '_SO_fetchAlternateID, SODatabaseIndex.get, queryForSelect, Select.__init__, the ORDER BY statement of Select.__sqlrepr__'),
     'level_text': ('Theorems C11_*: for every table (any size, any contents, NULLs and duplicates), every filter, every order '
                    'specification (strings with or without the "-" prefix, column names, raw strings, DESC nests, lists), any number '
                    'of reversed() calls, distinct or not: the rows the plan denotes are a permutation of the filtered (distinct) rows '
@@ -41,7 +48,10 @@ META = {
              'explicit primary keys at the edge of the key domain: 0, negatives, and a string-primary-key class with "" and other strings; '
              'order specifications with several keys given as lists and as tuples (select(orderBy=), .orderBy(), sqlmeta.defaultOrder), '
              'classes with defaultOrder, cacheValues=False; explicit connection=, lazyColumns), re-checked after interleaved inserts, updates and deletes, '
-             'a pool of SelectResults OBJECTS being kept and asked again (count, iteration, aggregates, getOne) after the mutations; seeded random after a '
+             'a pool of SelectResults OBJECTS being kept and asked again (count, iteration, aggregates, getOne) after the mutations; a transaction stream '
+             '(file-backed database: rows cached through the class connection, then a Transaction doing 0..160 lookups, updates through objects fetched '
+             'before or after them, 0..3 deletes of one class, inserts, commit or rollback; afterwards select / orderBy / reversed / selectBy / byName / get of '
+             'every live and every deleted id / count / sum / min / max through the class connection against the raw rows); seeded random after a '
              'hand-written corpus; distinct = distinct (table contents, query); non-trivial = the query has a filter, an order, distinct, '
              'an aggregate or a lookup'),
     'trusted': ['reference SQL semantics in Model/Query.lean (three-valued logic, NULLs first, aggregate conventions, DISTINCT) — '
@@ -50,7 +60,11 @@ META = {
     'modelled': ['SQLite engine: WHERE / DISTINCT / ORDER BY / COUNT / SUM / MIN / MAX / AVG (executed, not verified)',
                  'expression rendering beyond the small filter language used here (C03 covers it)',
                  'window (LIMIT/OFFSET) is left out: C10'],
-    'assumptions': ['a SelectResults object is a description of a query, not a snapshot: the model evaluates it as a function of the current table, '
+    'assumptions': ['translated code: every call into another object is a parameter of the interpreter (Model/QueryX.lean header): the constructors DESC / '
+                    'SQLConstant / SQLOp only store their arguments, string_type is str, columns have no from_python converter, tablesUsedSet / set.add / '
+                    'list(set) / repr / sqlrepr of non-DESC values / the database (queryOne, cursor.fetchone) are arbitrary functions; each theorem states '
+                    'what the method calls it makes return; assert / raise messages are not evaluated; one alias (self.ops = ops) is modelled by write-through',
+                    'a SelectResults object is a description of a query, not a snapshot: the model evaluates it as a function of the current table, '
                     'and the harness ties that by re-evaluating retained objects after mutations',
                     'ids are a key of the table (PRIMARY KEY); used for COUNT(DISTINCT id) = number of distinct rows',
                     'aggregates of a distinct select follow SQL `F(DISTINCT col)` (distinct column values), as sqlobject/tests/test_aggregates.py pins',
@@ -1194,6 +1208,214 @@ def run_table(ctx, tbl, phases, tag):
             ctx.compare('result value / outcome: model = real code', desc, mres, ires)
 
 
+# ---------------------------------------------------------------------------------- transactions
+# A select / get / count through the class's own connection must equal the same query over the rows that
+# are in the table NOW -- also right after another connection-like object (a Transaction) of the same
+# process has committed (or rolled back) deletes, updates and inserts, long transactions (more lookups
+# than the cache's cull frequency) included.  Oracle: raw `SELECT id, name, v` + a Python evaluation.
+
+_txenv = {}
+
+
+def tx_env():
+    if _txenv:
+        return _txenv
+    import atexit
+    import shutil
+    import tempfile
+    sqlo.setup()
+    from sqlobject import SQLObject, IntCol, StringCol
+    from sqlobject.sqlite.sqliteconnection import SQLiteConnection
+    d = tempfile.mkdtemp(prefix='c11tx_', dir='/dev/shm' if os.path.isdir('/dev/shm') else None)
+    atexit.register(shutil.rmtree, d, True)
+    conn = SQLiteConnection(os.path.join(d, 'tx.db'))
+
+    class C11Tx(SQLObject):
+        _connection = conn
+        name = StringCol(alternateID=True)
+        v = IntCol(default=None)
+    conn.query('PRAGMA synchronous=OFF')
+    C11Tx.createTable()
+    _txenv.update(conn=conn, cls=C11Tx, dir=d)
+    return _txenv
+
+
+def gen_tx_scenario(rng):
+    n = rng.choice([3, 4, 5, 6, 8])
+    dom = [None, 0, 1, 3, 3, 7]
+    rows = [['r%d' % i, rng.choice(dom)] for i in range(n)]
+    live = list(range(1, n + 1))
+    steps = []
+    lookups = rng.choice([0, 2, 5, 101, 120, 160])
+    early = rng.random() < 0.5         # the long run of lookups comes before / after the writes
+    n_del = rng.choice([0, 0, 1, 2, 2, 3])
+    n_upd = rng.choice([0, 1, 2, n])
+    n_ins = rng.choice([0, 0, 1, 2])
+    writes = []
+    for _ in range(min(n_upd, len(live))):
+        writes.append(['upd', rng.choice(live), rng.choice([None, 0, 5, 9, 97, 100])])
+    for _ in range(n_del):
+        if len(live) > 1:
+            i = rng.choice(live)
+            live.remove(i)
+            writes = [w for w in writes if not (w[0] == 'upd' and w[1] == i and rng.random() < 0.5)]
+            writes.append(['del', i])
+    for k in range(n_ins):
+        writes.append(['ins', 'n%d' % k, rng.choice(dom)])
+    # an update of a row must come before its delete
+    dead = set()
+    ordered = []
+    for w in writes:
+        if w[0] == 'upd' and w[1] in dead:
+            continue
+        if w[0] == 'del':
+            dead.add(w[1])
+        ordered.append(w)
+    poll = [['get', rng.choice(list(range(1, n + 1)))] for _ in range(1)] if lookups else []
+    gets = [['gets', poll[0][1] if poll else 1, lookups]] if lookups else []
+    steps = (gets + ordered) if early else (ordered + gets)
+    # a polled row that was deleted cannot be looked up afterwards
+    if not early and gets and gets[0][1] in dead:
+        steps = gets + ordered
+    return {'rows': rows, 'steps': steps, 'end': rng.choice(['commit', 'commit', 'commit', 'rollback']),
+            'preload': rng.choice([True, True, False]), 'fetch_first': rng.choice([True, True, False])}
+
+
+def tx_truth(conn, cls):
+    return [tuple(r) for r in conn.queryAll('SELECT id, name, v FROM %s ORDER BY id' % cls.sqlmeta.table)]
+
+
+def _nf(x):
+    return (x is not None, x if x is not None else 0)
+
+
+def tx_check(cls, conn, all_ids):
+    """every way of reading the table through the class's own connection against the raw rows; returns a
+    list of discrepancies (text)"""
+    from sqlobject import SQLObjectNotFound
+    truth = tx_truth(conn, cls)
+    by_id = {r[0]: r for r in truth}
+    bad = []
+
+    def shown(sel):
+        return [(r.id, r.name, r.v) for r in sel]
+
+    def cmp(what, got, want):
+        if got != want:
+            bad.append('%s: %r, rows in the table give %r' % (what, got, want))
+    cmp("select(orderBy='id')", shown(cls.select(orderBy='id')), truth)
+    want = sorted(truth, key=lambda t: (_nf(t[2]), t[0]))
+    cmp("select(orderBy=['v','id'])", shown(cls.select(orderBy=['v', 'id'])), want)
+    cmp("select(orderBy=['v','id']).reversed()", shown(cls.select(orderBy=['v', 'id']).reversed()), want[::-1])
+    cmp("select().orderBy('-id')", shown(cls.select().orderBy('-id')), truth[::-1])
+    for val in sorted(set(t[2] for t in truth), key=_nf):
+        w = [t for t in truth if t[2] == val]
+        cmp('selectBy(v=%r).orderBy(id)' % (val,), shown(cls.selectBy(v=val).orderBy('id')), w)
+        cmp('select(q.v == %r)' % (val,), shown(cls.select(cls.q.v == val, orderBy='id')), w)
+        cmp('selectBy(v=%r).count()' % (val,), cls.selectBy(v=val).count(), len(w))
+    for t in truth:
+        try:
+            r = cls.byName(t[1])
+            cmp('byName(%r)' % t[1], (r.id, r.name, r.v), t)
+        except SQLObjectNotFound:
+            bad.append('byName(%r): not found, the table has %r' % (t[1], t))
+    for i in all_ids:
+        try:
+            o = cls.get(i)
+            got = (o.id, o.name, o.v)
+        except SQLObjectNotFound:
+            got = 'not-found'
+        cmp('get(%d)' % i, got, by_id.get(i, 'not-found'))
+    vals = [t[2] for t in truth if t[2] is not None]
+    sel = cls.select()
+    cmp('count/sum/min/max', (sel.count(), sel.sum('v'), sel.min('v'), sel.max('v')),
+        (len(truth), sum(vals) if vals else None, min(vals) if vals else None, max(vals) if vals else None))
+    return bad
+
+
+def run_tx_scenario(sc):
+    """returns (discrepancies before the transaction, discrepancies after it, exception text or None)"""
+    e = tx_env()
+    cls, conn = e['cls'], e['conn']
+    conn.query('DELETE FROM %s' % cls.sqlmeta.table)
+    conn.cache.clear()
+    ids = []
+    for name, v in sc['rows']:
+        ids.append(cls(name=name, v=v).id)
+    base = ids[0] - 1                     # step ids are 1-based positions
+    mine = list(cls.select(orderBy='id')) if sc['preload'] else []
+    before = tx_check(cls, conn, ids) if sc['preload'] else []
+    trans = conn.transaction()
+    err = None
+    all_ids = list(ids)
+    try:
+        theirs = {o.id: o for o in cls.select(orderBy='id', connection=trans)} if sc['fetch_first'] else {}
+
+        def obj(i):
+            return theirs[i] if i in theirs else cls.get(i, connection=trans)
+        for st in sc['steps']:
+            if st[0] == 'gets':
+                for _ in range(st[2]):
+                    cls.get(base + st[1], connection=trans)
+            elif st[0] == 'upd':
+                obj(base + st[1]).v = st[2]
+            elif st[0] == 'del':
+                obj(base + st[1]).destroySelf()
+            elif st[0] == 'ins':
+                all_ids.append(cls(name=st[1], v=st[2], connection=trans).id)
+        if sc['end'] == 'commit':
+            trans.commit(close=True)
+        else:
+            trans.rollback()
+    except Exception as ex:                 # an outcome, reported by the caller
+        err = exc_out(ex)
+        try:
+            trans.rollback()
+        except Exception:
+            pass
+    after = tx_check(cls, conn, all_ids)
+    del mine
+    return before, after, err
+
+
+def tx_key(sc):
+    return 'C11:tx:%s' % json.dumps(sc, sort_keys=True, separators=(',', ':'))
+
+
+def run_tx_stream(ctx):
+    corpus = [
+        # two rows of one class destroyed in one transaction
+        {'rows': [['a', 3], ['b', None], ['c', 3], ['d', 7], ['e', 1]], 'steps': [['del', 2], ['del', 4]],
+         'end': 'commit', 'preload': True, 'fetch_first': False},
+        # a long transaction: rows fetched first, > 100 lookups, then every row updated through the fetched objects
+        {'rows': [['a', 3], ['b', None], ['c', 3], ['d', 7], ['e', 1], ['f', 0]],
+         'steps': [['gets', 6, 120]] + [['upd', i, 100 - i] for i in range(1, 7)],
+         'end': 'commit', 'preload': True, 'fetch_first': True},
+        {'rows': [['a', 1], ['b', 2], ['c', 3]], 'steps': [['upd', 1, 9], ['del', 2], ['ins', 'n0', None]],
+         'end': 'rollback', 'preload': True, 'fetch_first': True},
+    ]
+    scenarios = corpus + [gen_tx_scenario(ctx.rng) for _ in range(ctx.budget(30, 400))]
+    for sc in scenarios:
+        try:
+            before, after, err = run_tx_scenario(sc)
+        except Exception as ex:
+            before, after, err = [], [], 'harness step failed: ' + exc_out(ex)
+        long_tx = any(st[0] == 'gets' and st[2] > 100 for st in sc['steps'])
+        n_del = sum(1 for st in sc['steps'] if st[0] == 'del')
+        ctx.case(('tx', json.dumps(sc, sort_keys=True)), nontrivial=bool(sc['steps']),
+                 sample={'scenario': sc, 'after': after[:2]},
+                 kind='transaction:%s%s%s' % (sc['end'], '+long' if long_tx else '', '+%ddel' % n_del if n_del else ''))
+        desc = {'tx': sc, 'tag': 'transaction'}
+        if err:
+            ctx.oracle_fail(tx_key(sc), 'transaction scenario %s raised %s' % (sc, err), desc)
+        elif before:
+            ctx.oracle_fail(tx_key(sc), 'before the transaction: %s' % '; '.join(before[:3]), desc)
+        elif after:
+            ctx.oracle_fail(tx_key(sc), 'after %s of a transaction with steps %s (rows %s): %s'
+                            % (sc['end'], sc['steps'], sc['rows'], '; '.join(after[:4])), desc)
+
+
+
 def corpus_cases():
     d = os.path.join(os.path.dirname(os.path.dirname(os.path.abspath(__file__))), 'corpus', 'C11')
     out = []
@@ -1209,6 +1431,7 @@ def corpus_cases():
 def run(ctx):
     env()
     rng = ctx.rng
+    run_tx_stream(ctx)
     for fn, c in corpus_cases():
         run_table(ctx, c['table'], [(ph.get('mutations', []), ph['queries']) for ph in c['phases']], 'corpus:' + fn)
     n_tables = ctx.budget(550, 14000)
@@ -1219,6 +1442,10 @@ def run(ctx):
 
 
 def replay(case):
+    if 'tx' in case:
+        before, after, err = run_tx_scenario(case['tx'])
+        bad = ([err] if err else []) + before + after
+        return not bad, 'transaction scenario: %s\n%s' % (case['tx'], '\n'.join(bad) or 'agrees')
     env()
     rp = case['replay']
     tbl = dict(rp['table'])
